@@ -21,7 +21,8 @@ VERIF = os.path.dirname(os.path.abspath(__file__))
 LEAN = os.path.join(VERIF, "lean")
 HARNESS = os.path.join(VERIF, "harness")
 WORK = os.path.join(VERIF, "work")
-REPO = "/repo"
+REPO = os.environ.get("VERIF_REPO", "/repo")
+ALT = REPO != "/repo"          # development aid: run the same check against a scratch copy of the repository
 
 ALLOWED_AXIOMS = {"propext", "Classical.choice", "Quot.sound"}
 FORBIDDEN = re.compile(r"\b(sorry|admit|native_decide|bv_decide|implemented_by|unsafe)\b|^axiom\s|maxHeartbeats 0")
@@ -93,7 +94,7 @@ def translate(pid, result):
     tr = os.path.join(VERIF, "translator", "extract.py")
     if not os.path.exists(tr):
         return
-    rc, out, dt = run([sys.executable, tr], cwd=VERIF, timeout=120)
+    rc, out, dt = run([sys.executable, tr], cwd=VERIF, env={"VERIF_REPO": REPO}, timeout=120)
     result["translator_s"] = round(dt, 2)
     if rc != 0:
         result["broken"].append({"what": "translator", "name": "translator/extract.py",
@@ -163,6 +164,15 @@ def build_harness(pid, cfg, result):
     binname = cfg.get("harness_bin")
     if not binname:
         return None
+    global HARNESS
+    if ALT and not HARNESS.endswith("alt-harness"):
+        # same sources, path dependencies pointed at the scratch repository, own target dir
+        alt = os.path.join(WORK, "alt-harness")
+        os.makedirs(alt, exist_ok=True)
+        run(["rsync", "-a", "--delete", "--exclude", "target", "--exclude", "Cargo.lock*", HARNESS + "/", alt + "/"])
+        ct = open(os.path.join(alt, "Cargo.toml")).read().replace('"/repo/', '"' + REPO + "/")
+        open(os.path.join(alt, "Cargo.toml"), "w").write(ct)
+        HARNESS = alt
     lock_src = os.path.join(REPO, "Cargo.lock")
     lock_dst = os.path.join(HARNESS, "Cargo.lock")
     if os.path.exists(lock_src):
@@ -353,8 +363,9 @@ def main():
         "wall_s": round(time.time() - t0, 2),
         "violations": len(violations),
     }
-    os.makedirs(os.path.join(VERIF, "evidence"), exist_ok=True)
-    json.dump(evidence, open(os.path.join(VERIF, "evidence", f"{pid}.json"), "w"), indent=1, default=str)
+    ev_dir = os.path.join(WORK, "alt-evidence") if ALT else os.path.join(VERIF, "evidence")
+    os.makedirs(ev_dir, exist_ok=True)
+    json.dump(evidence, open(os.path.join(ev_dir, f"{pid}.json"), "w"), indent=1, default=str)
 
     for line in known_lines:
         print(line)
